@@ -12,6 +12,11 @@ import (
 )
 
 func solverVersion(s string) string {
+	suffix := ""
+	if s == "cvc5-int" {
+		s, suffix = "cvc5", " (--solve-bv-as-int=sum)"
+	}
+	defer func() { _ = suffix }()
 	out, err := exec.Command(s, "--version").Output()
 	if err != nil {
 		return s
@@ -22,6 +27,7 @@ func solverVersion(s string) string {
 func writeEvidence(prop, tier string, seed int, outs []*harnessOutcome, ld *loaded, wall time.Duration, solver string, exit int) error {
 	type hEv struct {
 		Name          string            `json:"name"`
+		Solver        string            `json:"solver"`
 		Func          string            `json:"func"`
 		What          string            `json:"what"`
 		Status        string            `json:"status"`
@@ -62,7 +68,7 @@ func writeEvidence(prop, tier string, seed int, outs []*harnessOutcome, ld *load
 	violations := 0
 	for _, o := range outs {
 		r := o.res
-		e := hEv{Name: o.h.Name, Func: o.h.Pkg + "." + o.h.Func, What: o.h.What, Status: o.status, Why: o.why,
+		e := hEv{Solver: solverVersion(o.solver), Name: o.h.Name, Func: o.h.Pkg + "." + o.h.Func, What: o.h.What, Status: o.status, Why: o.why,
 			Bounds: o.tc.Params, Unwind: o.tc.Unwind, MaxConc: o.tc.MaxConc, MapOrder: o.tc.MapOrder,
 			Paths: r.Paths, Infeasible: r.PathsInfeasible, NonTrivial: r.NonTrivial, MaxDecisions: r.MaxDecisions,
 			Queries: r.Solver.Queries, QSat: r.Solver.Sat, QUnsat: r.Solver.Unsat, QUnknown: r.Solver.Unknown,
